@@ -96,7 +96,9 @@ impl Drop for Output {
         let _ = match self {
             Output::StdOut => Ok(()),
             Output::Named(target) => std::fs::remove_file(target),
-            Output::InPlace(target) => std::fs::remove_file(target),
+            // The in-place output is the input file: a temporary copy is removed by `Input`,
+            // and with `--no-copy` it is the user's original file, which must never be removed.
+            Output::InPlace(_) => Ok(()),
         };
     }
 }
